@@ -92,6 +92,14 @@ def drop_sandbox(path: str) -> None:
 ROOT_TOKEN = b"$ROOT$"
 
 
+SYMLINK_MARK = b"\x00SYMLINK\x00"
+
+
+def symlink(target: str) -> bytes:
+    """File content that makes populate() create a symbolic link to `target` instead of a file."""
+    return SYMLINK_MARK + target.encode()
+
+
 def populate(root: str, files: dict[str, bytes]) -> None:
     """Write the case's files; in source files the token $ROOT$ stands for the sandbox directory
     (lets a case refer to files by absolute path although the directory is only known at run time)."""
@@ -99,6 +107,9 @@ def populate(root: str, files: dict[str, bytes]) -> None:
         p = os.path.join(root, rel)
         os.makedirs(os.path.dirname(p), exist_ok=True)
         data = files[rel]
+        if data.startswith(SYMLINK_MARK):
+            os.symlink(data[len(SYMLINK_MARK) :].decode(), p)
+            continue
         if rel.endswith(".s") and ROOT_TOKEN in data:
             data = data.replace(ROOT_TOKEN, root.encode())
         with _REAL_OPEN(p, "wb") as f:
@@ -302,7 +313,8 @@ class SimEnv:
             return _REAL_OPEN(file, mode, buffering, encoding, errors, newline, closefd, opener)
         if isinstance(path, bytes):
             path = os.fsdecode(path)
-        abspath = os.path.abspath(path)
+        # no textual normalisation: 'link/../x' means the parent of the link's *target* to the OS
+        abspath = path if os.path.isabs(path) else os.path.join(os.getcwd(), path)
         role = self.role_of(abspath)
         modeset = set(mode)
         if role is None or not modeset <= set("rwaxbt+") or len(modeset) != len(mode):
@@ -344,6 +356,10 @@ class SimEnv:
             raise
         if binary:
             return buf
+        if encoding in (None, "locale") and self.knobs.get("locale_encoding"):
+            # the environment decides what "no encoding given" means (LANG / LC_ALL / PYTHONUTF8)
+            encoding = self.knobs["locale_encoding"]
+            self.count("text_open_with_locale_encoding", role)
         try:
             text = io.TextIOWrapper(buf, encoding, errors, newline, line_buffering)
             text.mode = mode  # type: ignore[misc]
